@@ -168,6 +168,17 @@ def ob_option_flow(ctx, res):
             if not re.fullmatch(want[o], og):
                 res.fail("optionFlow/%s/%s" % (cmd, o), asg[o], "options.%s is set from `%s` (origin %s)" % (o, up(asg[o]["r"]), og))
                 ok = False
+        # any further option that is set must come from the like-named command-line argument (or the one the table names)
+        for o, node in asg.items():
+            if o in opts:
+                continue
+            og = origin(fn, node["r"])
+            if not og.startswith("p0."):
+                continue            # not taken from the arguments at all: nothing to compare
+            w = want.get(o, r"!?p0\.write_args\.%s" % re.escape(o))
+            if not re.fullmatch(w, og):
+                res.fail("optionFlow/%s/%s" % (cmd, o), node, "options.%s is set from `%s` (origin %s): a different command-line argument than the one of that name" % (o, up(node["r"]), og))
+                ok = False
         # sorted table
         sm = [n for n in walk_no_nested_fn(fn.body) if n.k == "match" and "sorted" in up(n["scrut"])]
         tab = {}
